@@ -56,7 +56,7 @@ func (c *Ctx) findCtor() *ctorModel {
 	}
 	for _, fn := range c.LibFuncs() {
 		var lit *ssa.Alloc
-		allInstrs(fn, false, func(in ssa.Instruction) {
+		rawInstrs(fn, false, func(in ssa.Instruction) {
 			if al, ok := in.(*ssa.Alloc); ok {
 				if n, ok := al.Type().(*types.Pointer).Elem().(*types.Named); ok && n.Obj() == v2s.Obj() {
 					lit = al
@@ -70,7 +70,7 @@ func (c *Ctx) findCtor() *ctorModel {
 		osr := c.Named("pkg/ipmi", "OpenSessionRsp")
 		r2 := c.Named("pkg/ipmi", "RAKPMessage2")
 		r4 := c.Named("pkg/ipmi", "RAKPMessage4")
-		allInstrs(fn, false, func(in ssa.Instruction) {
+		rawInstrs(fn, false, func(in ssa.Instruction) {
 			call, ok := in.(*ssa.Call)
 			if !ok {
 				return
@@ -149,7 +149,11 @@ func tookEqualArm(p CPath, ifi *ssa.If) bool {
 }
 
 // ifsOf lists the If instructions of fn.
-func ifsOf(fn *ssa.Function) []*ssa.If {
+// ifsOf lists the conditional branches of fn's flattened view.
+func ifsOf(fn *ssa.Function) []*ssa.If { return viewIfs(fn) }
+
+// rawIfsOf lists the conditional branches of fn alone.
+func rawIfsOf(fn *ssa.Function) []*ssa.If {
 	var out []*ssa.If
 	for _, b := range fn.Blocks {
 		if ifi, ok := b.Instrs[len(b.Instrs)-1].(*ssa.If); ok {
